@@ -167,7 +167,7 @@ func (s *Sim) collectUReps(ctx *StepCtx) []*URep {
 		if carrier == "srr" {
 			for _, up := range m.liveSEIDs() {
 				c := m.sess[up]
-				if c.CP == pm.SEID && c.Node+":8805" == o.Dst {
+				if c.CP == pm.SEID && s.nodeDst(c.Node) == o.Dst {
 					cands = append(cands, c)
 				}
 			}
@@ -388,7 +388,7 @@ func (s *Sim) checkC10Fields(ctx *StepCtx, u *URep, k *KReport, x *MSess, flag u
 	mu := x.URR[u.URRID]
 	// addressed to the owner, with the peer's SEID
 	if u.Carrier == "srr" {
-		if u.Pkt.Dst != x.Node+":8805" {
+		if u.Pkt.Dst != s.nodeDst(x.Node) {
 			s.violate("C10", "report.owner", "report:wrong-owner", "report of session %#x sent to %s, owner is %s", x.UP, u.Pkt.Dst, x.Node)
 		}
 		if u.Msg.SEID != x.CP {
